@@ -58,7 +58,7 @@ func luaTypeCode(v LVal) int64 {
 		return luaTNil
 	case LBoolV:
 		return luaTBool
-	case LNumV, LRatV:
+	case LNumV, LRatV, LFltV:
 		return luaTNumber
 	case LStrV:
 		return luaTString
@@ -135,8 +135,13 @@ func (ex *Exec) luaToJNode(v LVal, depth int) (*JNode, string) {
 		return &JNode{kind: "bool", scalar: x.t}, ""
 	case LNumV:
 		return &JNode{kind: "num", scalar: x.t}, ""
-	case LRatV:
-		ex.unsupported("non-integral Lua number in the script result (floating point is outside the model)")
+	case LRatV, LFltV:
+		li := &luaInterp{ex: ex}
+		w := wrapFloat(li.toFloat(x))
+		if n, ok := w.(LNumV); ok {
+			return &JNode{kind: "num", scalar: n.t}, ""
+		}
+		return &JNode{kind: "float", raw: FloatV{f: w.(LFltV).f}}, ""
 	case LStrV:
 		return &JNode{kind: "str", scalar: x.t}, ""
 	case *LTableV:
